@@ -201,6 +201,7 @@ Record sem (W : Type) := {
   s_root : oid;
   s_key : oid -> pyval;                                         (* get_id_pack(o) *)
   s_type : oid -> oid;                                          (* type(o) *)
+  s_callable : oid -> bool;                                     (* callable(o) *)
   s_view : W -> oid -> obj;                                     (* which names hasattr(o, .) finds; whether type(o) defines _rpyc_*attr *)
   s_attr : W -> oid -> permkey -> text -> list lval -> W * res lval;
   s_hook : W -> oid -> permkey -> text -> list lval -> W * res lval;
@@ -208,7 +209,7 @@ Record sem (W : Type) := {
   s_val : nop -> pyval -> list lval -> res lval;                (* the same operations on a plain value: Python's own semantics *)
   s_builtin_names : list text;                                  (* keys of netref.builtin_classes_cache *)
   s_env : Vinegar.env }.                                        (* builtins namespace / sys.modules as vinegar.load sees them *)
-Arguments s_root {W}. Arguments s_key {W}. Arguments s_type {W}. Arguments s_view {W}. Arguments s_attr {W}.
+Arguments s_root {W}. Arguments s_key {W}. Arguments s_type {W}. Arguments s_callable {W}. Arguments s_view {W}. Arguments s_attr {W}.
 Arguments s_hook {W}. Arguments s_op {W}. Arguments s_val {W}. Arguments s_builtin_names {W}. Arguments s_env {W}.
 
 Inductive panswer := PReply (pkg : pyval) | PExc (payload : pyval) | PSilent.
@@ -231,7 +232,9 @@ Inductive hexp :=
 | XCleanup                                  (* self._cleanup() *)
 | XTup0 | XTupCons (h t : hexp)             (* a tuple built by the implementation *)
 | XLet (e body : hexp)
-| XAccess (p : permkey) (o n extra : hexp)  (* self._access_attr(o, n, extra, "_rpyc_Xattr", "allow_Xattr", Xattr) *)
+| XAccess (p : permkey) (g : option (list string)) (o n extra : hexp)
+      (* self._access_attr(o, n, extra, "_rpyc_Xattr", "allow_Xattr", Xattr); with g = Some names the default accessor is a local
+         function that serves the (policy-checked) name only if it is one of names and raises AttributeError otherwise *)
 | XType (e : hexp)                          (* type(e) *)
 | XCall (f pos star kw : hexp)              (* f( *pos, *star, **dict(kw) ); pos is built by the implementation *)
 | XOp (op : nop) (a b : hexp)               (* repr(a), str(a), hash(a), tuple(dir(a)), tuple(islice(a, b)), ... *)
@@ -243,17 +246,19 @@ Inductive hexp :=
 | XIfNone (c t e : hexp)                    (* t if c is None else e *)
 | XIfHasConn (ty : bool) (c t e : hexp)     (* t if hasattr(c, '____conn__') else e; ty: the test is on type(c) *)
 | XForward (c : hexp) (h : Z) (a : hexp)    (* c.____conn__.sync_request(h, a) *)
-| XCtxArgs (load : bool) (e : hexp).        (* the (exc, typ, tb) triple computed by _handle_ctxexit; load: raise self._unbox_exc(exc) instead of raise exc *)
+| XCtxArgs (load all : bool) (e : hexp).    (* the (exc, typ, tb) triple computed by _handle_ctxexit; all: except BaseException instead of except Exception; load: raise self._unbox_exc(exc) instead of raise exc *)
 Record hdef := { h_min : nat; h_defaults : list hexp; h_body : hexp }.
 
 Definition P0 := XParam 0. Definition P1 := XParam 1. Definition P2 := XParam 2.
 Definition P3 := XParam 3. Definition P4 := XParam 4. Definition P5 := XParam 5.
 Definition tup1 (a : hexp) := XTupCons a XTup0.
 Definition tup2 (a b : hexp) := XTupCons a (XTupCons b XTup0).
-Definition get_attr (o n : hexp) := XAccess PGet o n XTup0.
+Definition get_attr (o n : hexp) := XAccess PGet None o n XTup0.
 
-(* the request handlers of the pinned tree (tie: HostileTie.handlers_tie) *)
-Definition handlers : list (string * hdef) :=
+(* the request handlers of the tree (tie: HostileTie.handlers_tie); two bodies exist in two forms, selected by generated facts:
+   cmpg  = Some names: _handle_cmp serves the peer-chosen operator only if it is one of names (None: any policy-allowed name);
+   ctxall = true: _handle_ctxexit catches BaseException around `raise exc` (false: Exception) *)
+Definition handlers_of (cmpg : option (list string)) (ctxall : bool) : list (string * hdef) :=
   [("ping", {| h_min := 1; h_defaults := []; h_body := P0 |});
    ("close", {| h_min := 0; h_defaults := []; h_body := XCleanup |});
    ("getroot", {| h_min := 0; h_defaults := []; h_body := XRoot |});
@@ -261,18 +266,18 @@ Definition handlers : list (string * hdef) :=
    ("repr", {| h_min := 1; h_defaults := []; h_body := XOp OpRepr P0 XNone |});
    ("str", {| h_min := 1; h_defaults := []; h_body := XOp OpStr P0 XNone |});
    ("cmp", {| h_min := 2; h_defaults := [XText "__cmp__"];
-              h_body := XCall (get_attr (XType P0) P2) (tup2 P0 P1) XUnit XUnit |});
+              h_body := XCall (XAccess PGet cmpg (XType P0) P2 XTup0) (tup2 P0 P1) XUnit XUnit |});
    ("hash", {| h_min := 1; h_defaults := []; h_body := XOp OpHash P0 XNone |});
    ("call", {| h_min := 2; h_defaults := [XUnit]; h_body := XCall P0 XTup0 P1 P2 |});
    ("dir", {| h_min := 1; h_defaults := []; h_body := XOp OpDir P0 XNone |});
    ("inspect", {| h_min := 1; h_defaults := [];
                   h_body := XIfHasConn true (XLookup P0) (XForward (XLookup P0) 16 P0) (XOp OpGetMethods (XLookup P0) XNone) |});
    ("getattr", {| h_min := 2; h_defaults := []; h_body := get_attr P0 P1 |});
-   ("delattr", {| h_min := 2; h_defaults := []; h_body := XAccess PDel P0 P1 XTup0 |});
-   ("setattr", {| h_min := 3; h_defaults := []; h_body := XAccess PSet P0 P1 (tup1 P2) |});
+   ("delattr", {| h_min := 2; h_defaults := []; h_body := XAccess PDel None P0 P1 XTup0 |});
+   ("setattr", {| h_min := 3; h_defaults := []; h_body := XAccess PSet None P0 P1 (tup1 P2) |});
    ("callattr", {| h_min := 3; h_defaults := [XUnit]; h_body := XLet (get_attr P0 P1) (XCall (XLocal 0) XTup0 P2 P3) |});
    ("ctxexit", {| h_min := 2; h_defaults := [];
-                  h_body := XLet (XCtxArgs true P1) (XCall (get_attr P0 (XText "__exit__")) XTup0 (XLocal 0) XUnit) |});
+                  h_body := XLet (XCtxArgs true ctxall P1) (XCall (get_attr P0 (XText "__exit__")) XTup0 (XLocal 0) XUnit) |});
    ("instancecheck", {| h_min := 2; h_defaults := [];
                         h_body := XIfHasConn false P0 (XForward P0 16 P1) (XOp OpIsinstance P0 P1) |});
    ("pickle", {| h_min := 2; h_defaults := []; h_body := XGuardCfg "allow_pickle" ValueError (XOp OpPickle P0 P1) |});
@@ -281,6 +286,8 @@ Definition handlers : list (string * hdef) :=
                      h_body := XTryExc (XLet (get_attr P0 P1) (XCall (XLocal 0) (tup1 (XSlice P3 P4)) P5 XUnit))
                                        (XLet (XIfNone P4 XMaxint P4)
                                              (XLet (get_attr P0 P2) (XCall (XLocal 0) (tup2 P3 (XLocal 1)) P5 XUnit))) |})]%string.
+Definition handlers : list (string * hdef) := handlers_of None false.
+Definition CMP_NAMES : list string := ["__cmp__"; "__eq__"; "__ne__"; "__lt__"; "__le__"; "__gt__"; "__ge__"]%string.
 (* handler number -> method (tie: consts + _request_handlers) *)
 Definition dispatch : list (Z * string) :=
   [(1, "ping"); (2, "close"); (3, "getroot"); (4, "getattr"); (5, "delattr"); (6, "setattr"); (7, "call"); (8, "callattr");
@@ -659,7 +666,9 @@ Definition ev_name (e : ev) : text := match e with EGet n | ESet n | EDel n => n
 Definition no_obj : obj := {| attrs := []; hook_get := false; hook_set := false; hook_del := false |}.
 
 (* Connection._access_attr(tgt, nm, extra, "_rpyc_<p>attr", "allow_<p>attr", <p>attr) *)
-Definition access (p : permkey) (tgt nm : lval) (extra : list lval) : M lval :=
+Definition guard_ok (g : option (list string)) (final : text) : bool :=
+  match g with None => true | Some names => existsb (fun n => text_eqb final (txt n)) names end.
+Definition access (p : permkey) (g : option (list string)) (tgt nm : lval) (extra : list lval) : M lval :=
   let pn := pyname_of nm in
   match tgt with
   | LO o => fun s =>
@@ -669,7 +678,9 @@ Definition access (p : permkey) (tgt nm : lval) (extra : list lval) : M lval :=
       | Ok (ViaHook n) =>
           let '(w, r) := s_hook S (wst s1) o p n extra in (with_w (add_ev s1 (EHook o p n (yields r))) w, r)
       | Ok (ViaDefault final) =>
-          let '(w, r) := s_attr S (wst s1) o p final extra in (with_w (add_ev s1 (EAttr o p final (yields r))) w, r)
+          if guard_ok g final then
+            let '(w, r) := s_attr S (wst s1) o p final extra in (with_w (add_ev s1 (EAttr o p final (yields r))) w, r)
+          else (s1, RRaise (XStd AttributeError))          (* the guarded accessor refuses the name before touching the object *)
       | Raise e => (s1, RRaise (XStd e))
       | _ => (s1, RUnm)
       end
@@ -677,6 +688,7 @@ Definition access (p : permkey) (tgt nm : lval) (extra : list lval) : M lval :=
   | _ =>   (* a plain value or an implementation-internal object: no hook, nothing exposed_; an allowed name reaches Python's own attribute *)
       match decide (c_guard C) (c_attr C) p pn no_obj with
       | Raise e => raise_std e
+      | Ok (ViaDefault final) => if guard_ok g final then unm else raise_std AttributeError
       | _ => unm
       end
   end.
@@ -784,9 +796,9 @@ Definition cleanup : M unit :=
 Definition ctx_of (x : xid) : list (oid * nop) :=
   match x with XAttrObj o => [(o, OpDir)] | XCarry os => rev (map (fun o => (o, OpStr)) os) | _ => [] end.
 (* try: m  except Exception: h *)
-Definition try_exc {A} (m h : M A) : M A :=
+Definition try_exc {A} (all : bool) (m h : M A) : M A :=          (* all: except BaseException *)
   fun s => match m s with
-           | (s', RRaise x) => if is_exception x
+           | (s', RRaise x) => if all || is_exception x
                                then h (with_ctxs s' (ctx_of x ++ ctxs s'))   (* what h raises has x as __context__ *)
                                else (s', RRaise x)
            | r => r
@@ -829,9 +841,9 @@ Fixpoint eval (env loc : list lval) (e : hexp) {struct e} : M lval :=
   | XTup0 => ret (LT [])
   | XTupCons h t => dom a <- eval env loc h; dom b <- eval env loc t; ret (LT (a :: tuple_items b))
   | XLet e1 body => dom v <- eval env loc e1; eval env (v :: loc) body
-  | XAccess p o n extra =>
+  | XAccess p g o n extra =>
       dom ov <- eval env loc o; dom nv <- eval env loc n; dom ev <- eval env loc extra;
-      access p ov nv (tuple_items ev)
+      access p g ov nv (tuple_items ev)
   | XType e1 =>
       dom v <- eval env loc e1;
       match v with
@@ -878,7 +890,7 @@ Fixpoint eval (env loc : list lval) (e : hexp) {struct e} : M lval :=
   | XDecref k c => dom kv <- eval env loc k; dom cv <- eval env loc c; decref kv cv
   | XGuardCfg key ex body =>
       if String.eqb key "allow_pickle" then (if c_pickle C then eval env loc body else raise_std ex) else unm
-  | XTryExc body handler => try_exc (eval env loc body) (eval env loc handler)
+  | XTryExc body handler => try_exc false (eval env loc body) (eval env loc handler)
   | XIfNone c t e1 =>
       dom cv <- eval env loc c;
       match cv with LV PNone => eval env loc t | _ => eval env loc e1 end
@@ -895,10 +907,10 @@ Fixpoint eval (env loc : list lval) (e : hexp) {struct e} : M lval :=
   | XForward c h a =>
       dom cv <- eval env loc c; dom av <- eval env loc a;
       converse h [av]
-  | XCtxArgs load e1 =>
+  | XCtxArgs load all e1 =>
       dom v <- eval env loc e1;
       dom b <- truthy v;
-      if b then try_exc (dom _ <- ctx_raise load v; unm) (ret (LT [LOpq; LOpq; LOpq]))
+      if b then try_exc all (dom _ <- ctx_raise load v; unm) (ret (LT [LOpq; LOpq; LOpq]))
       else ret (LT [v; LV PNone; LV PNone])
   end.
 
@@ -943,7 +955,7 @@ Definition end_conn (s : state) : state := if closed s then s else fst (cleanup 
    attribute lookup to suggest a name; vinegar.dump sends repr() of every argument / attribute that is not a plain value *)
 Definition payload_events (x : xid) : list event :=
   match x with
-  | XAttrObj o => [EPayload o OpDir; EPayload o OpRepr]
+  | XAttrObj o => EPayload o OpDir :: (if s_callable S o then [] else [EPayload o OpRepr])      (* vinegar.dump skips callable attribute values *)
   | XCarry os => map (fun o => EPayload o OpStr) os ++ map (fun o => EPayload o OpRepr) os      (* str(exc) in the traceback text, repr(arg) in the record *)
   | _ => []
   end.
@@ -1032,11 +1044,11 @@ Record odesc := {
   od_key : pyval; od_type : oid; od_class : bool;
   od_attrs : list (text * aval); od_hooks : bool * bool * bool; od_hookres : aval;
   od_call : aval; od_iter : option (list aval);
-  od_repr : text; od_str : text; od_hash : aval; od_dir : list text; od_bool : bool; od_methods : pyval }.
+  od_repr : text; od_str : text; od_hash : aval; od_dir : list text; od_bool : bool; od_methods : pyval; od_callable : bool }.
 Definition nil_desc : odesc :=
   {| od_key := PNone; od_type := 0%N; od_class := false; od_attrs := []; od_hooks := (false, false, false); od_hookres := ANone;
      od_call := ANone; od_iter := None; od_repr := []; od_str := []; od_hash := ANone; od_dir := []; od_bool := true;
-     od_methods := PTuple [] |}.
+     od_methods := PTuple []; od_callable := true |}.
 Record world := { w_objs : list odesc; w_builtin : list text }.
 Definition desc (w : world) (o : oid) : odesc := nth (N.to_nat o) (w_objs w) nil_desc.
 Definition lv_of_aval (missing : exn) (a : aval) : res lval :=
@@ -1056,6 +1068,7 @@ Definition world_sem (w : world) (excs : list text) (mods : list (text * Vinegar
   {| s_root := 0%N;
      s_key := fun o => od_key (desc w o);
      s_type := fun o => od_type (desc w o);
+     s_callable := fun o => od_callable (desc w o);
      s_view := fun _ o => let d := desc w o in
                           let '(g, st, dl) := od_hooks d in
                           {| attrs := map fst (od_attrs d); hook_get := g; hook_set := st; hook_del := dl |};
@@ -1123,14 +1136,14 @@ Definition aval_of_sx (x : sx) : aval :=
 Definition text_of_sx (x : sx) : text := map sx_n (sx_l x).
 Definition desc_of_sx (x : sx) : odesc :=
   match x with
-  | SL [k; ty; cl; at_; hk; hr; ca; it; rp; st; hs; dr; bo; me] =>
+  | SL [k; ty; cl; at_; hk; hr; ca; it; rp; st; hs; dr; bo; me; cb] =>
       {| od_key := pv_of_sx k; od_type := sx_n ty; od_class := sx_bool cl;
          od_attrs := map (fun e => match e with SL [n; a] => (text_of_sx n, aval_of_sx a) | _ => ([], ANone) end) (sx_l at_);
          od_hooks := match hk with SL [a; b; c] => (sx_bool a, sx_bool b, sx_bool c) | _ => (false, false, false) end;
          od_hookres := aval_of_sx hr; od_call := aval_of_sx ca;
          od_iter := match it with SL [SI 1%Z; SL l] => Some (map aval_of_sx l) | _ => None end;
          od_repr := text_of_sx rp; od_str := text_of_sx st; od_hash := aval_of_sx hs;
-         od_dir := map text_of_sx (sx_l dr); od_bool := sx_bool bo; od_methods := pv_of_sx me |}
+         od_dir := map text_of_sx (sx_l dr); od_bool := sx_bool bo; od_methods := pv_of_sx me; od_callable := sx_bool cb |}
   | _ => nil_desc
   end.
 Definition answer_of_sx (x : sx) : panswer :=
@@ -1183,22 +1196,24 @@ Definition config_with (m : Vinegar.lookup_mode) : config :=
   {| c_attr := c_attr default_config; c_guard := c_guard default_config; c_pickle := c_pickle default_config;
      c_rflags := c_rflags default_config; c_prop_kbd := c_prop_kbd default_config; c_prop_sysexit := c_prop_sysexit default_config;
      c_cls_mode := m |}.
-Fixpoint session (C : config) (S : sem unit) (s : hst unit) (msgs : list sx) : list sx :=
+Fixpoint session (H : list (string * hdef)) (C : config) (S : sem unit) (s : hst unit) (msgs : list sx) : list sx :=
   match msgs with
   | [] => []
   | SL [m; a] :: r =>
       let n0 := List.length (tr s) in
-      let '(s', o) := handle_msg S C handlers dispatch msg_ladder unbox_ladder box_ladder (pv_of_sx m) (map answer_of_sx (sx_l a)) s in
+      let '(s', o) := handle_msg S C H dispatch msg_ladder unbox_ladder box_ladder (pv_of_sx m) (map answer_of_sx (sx_l a)) s in
       let evs := rev (firstn (List.length (tr s') - n0) (tr s')) in
-      SL [sx_of_out o; SL (map sx_of_event evs); sx_of_table (tbl s'); sbool (closed s'); sbool (approx s')] :: session C S s' r
-  | _ :: r => bad_input :: session C S s r
+      SL [sx_of_out o; SL (map sx_of_event evs); sx_of_table (tbl s'); sbool (closed s'); sbool (approx s')] :: session H C S s' r
+  | _ :: r => bad_input :: session H C S s r
   end.
 Definition run_hostile (x : sx) : sx :=
   match x with
-  | SL [cmd; mode; objs; builtin; excs; mods; msgs] =>
+  | SL [cmd; SL [mode; cmpg; ctxall]; objs; builtin; excs; mods; msgs] =>
       if is_tag "session" cmd then
         let w := {| w_objs := map desc_of_sx (sx_l objs); w_builtin := map text_of_sx (sx_l builtin) |} in
-        SL (session (config_with (Vinegar.mode_of_sx mode)) (world_sem w (map text_of_sx (sx_l excs)) (Vinegar.mods_of_sx mods)) (init tt) (sx_l msgs))
+        let g := match cmpg with SL [SI 1%Z; SL names] => Some (map (fun n => string_of_list_byte (sx_b n)) names) | _ => None end in
+        SL (session (handlers_of g (sx_bool ctxall)) (config_with (Vinegar.mode_of_sx mode))
+                    (world_sem w (map text_of_sx (sx_l excs)) (Vinegar.mods_of_sx mods)) (init tt) (sx_l msgs))
       else bad_input
   | _ => bad_input
   end.
